@@ -403,17 +403,25 @@ func c03WhoDeletes(c *Ctx) {
 	if rootF == nil || mergedF == nil || persistF == nil {
 		return
 	}
-	type allowed struct{ fn, prefix string }
 	retire := retireFunc(c)
-	retireName := "(*kv.DB).moveMergedRoots"
-	if retire != nil {
-		retireName = core.FuncName(retire)
+	dhFn := c.P.LookupFunc("kv", "", "DeleteHistoricVersions")
+	var dhScope *an.Scope
+	if dhFn != nil {
+		dhScope = c.Scope(dhFn)
 	}
-	okSites := map[allowed]string{
-		{retireName, "root"}:                     "retirement after copy (C03.retire)",
-		{"kv.DeleteHistoricVersions", "persist"}: "vacuum: node objects of superseded versions",
-		{"kv.DeleteHistoricVersions", "merged"}:  "vacuum: superseded version objects in merged/",
-		{"kv.DeleteHistoricVersions", "root"}:    "vacuum: the empty current version (guard checked below)",
+	// allowed(fn, prefix): the role of the function decides, not its name
+	allowedSite := func(fn *ssa.Function, pfx string) (string, bool) {
+		switch {
+		case fn == retire && pfx == "root":
+			return "retirement after copy (C03.retire)", true
+		case dhScope != nil && dhScope.Contains(fn) && pfx == "persist":
+			return "vacuum: node objects of superseded versions", true
+		case dhScope != nil && dhScope.Contains(fn) && pfx == "merged":
+			return "vacuum: superseded version objects in merged/", true
+		case dhScope != nil && dhScope.Contains(fn) && pfx == "root":
+			return "vacuum: the empty current version (guard checked below)", true
+		}
+		return "", false
 	}
 	for _, fn := range c.P.RepoFuncs(an.LibraryPkg) {
 		for _, del := range deleteCalls(fn) {
@@ -431,13 +439,13 @@ func c03WhoDeletes(c *Ctx) {
 			}
 			fname := core.FuncName(fn)
 			c.R.SawFunc(fname)
-			reason, ok := okSites[allowed{fname, pfx}]
+			reason, ok := allowedSite(fn, pfx)
 			construct := fname + ": DELETE under DB." + pfx
 			if !ok {
 				c.R.Bad(rule, construct, c.P.Pos(del.Pos()), "a DELETE request at a site / on a prefix that is not one of the confirmed ones: objects other clients rely on may disappear")
 				continue
 			}
-			if fname == "kv.DeleteHistoricVersions" && pfx == "root" {
+			if dhScope != nil && dhScope.Contains(fn) && pfx == "root" {
 				// only for an empty, clean, committed tree
 				sizeZero := false
 				for _, b := range fn.Blocks {
@@ -656,6 +664,50 @@ func c03PersistLists(c *Ctx) {
 			c.R.Unk(rule, "kv.Open: persists/skipUnreadable pairing", c.P.Pos(call.Pos()), "cannot pair the persist list with skipUnreadable (unexpected data flow)")
 			continue
 		}
+		// the selection may have moved into a helper that returns a struct: the pairs are then the
+		// field stores of each struct literal, and the call reads the same two fields
+		if len(cases) == 1 {
+			if _, isC := constBool(cases[0].skip); !isC {
+				pf, sf := fieldOfValue(pv), fieldOfValue(sv)
+				if pf != nil && sf != nil {
+					var lit []kase
+					for _, f := range c.Scope(open).Funcs {
+						for _, b := range f.Blocks {
+							for _, in := range b.Instrs {
+								al, ok := in.(*ssa.Alloc)
+								if !ok {
+									continue
+								}
+								var pVal, sVal ssa.Value
+								for _, r := range *al.Referrers() {
+									fa, ok := r.(*ssa.FieldAddr)
+									if !ok {
+										continue
+									}
+									fv := an.FieldVar(fa.X.Type(), fa.Field)
+									for _, rr := range *fa.Referrers() {
+										if st, ok := rr.(*ssa.Store); ok && st.Addr == ssa.Value(fa) {
+											if fv == pf {
+												pVal = st.Val
+											}
+											if fv == sf {
+												sVal = st.Val
+											}
+										}
+									}
+								}
+								if pVal != nil && sVal != nil {
+									lit = append(lit, kase{pVal, sVal})
+								}
+							}
+						}
+					}
+					if len(lit) > 0 {
+						cases = lit
+					}
+				}
+			}
+		}
 		for _, k := range cases {
 			n++
 			skip, isConst := constBool(k.skip)
@@ -669,8 +721,9 @@ func c03PersistLists(c *Ctx) {
 				continue
 			}
 			var kinds []string
+			osc := c.Scope(open)
 			for _, e := range elems {
-				kinds = append(kinds, persistKind(e))
+				kinds = append(kinds, persistKind(osc.ArgOfParam(an.Unwrap(e))))
 			}
 			ks := strings.Join(kinds, ",")
 			pos := c.P.Pos(call.Pos())
@@ -1088,4 +1141,15 @@ func init() {
 	}, Doc: "no storage error is dropped in the kv layer (open, merge, commit): a version is skipped only under its NoSuchKey / skipUnreadable guards"})
 	byProp["C03"] = append(byProp["C03"], "C03.open-errors")
 	explain["C03"] += " open-errors: the error discipline of C14 restricted to kv/kv.go — an opener may leave a listed version out only on a well-formed NoSuchKey (every swallow edge is dominated by that test), never because a transient fault on one location was forgotten."
+}
+
+// fieldOfValue returns the struct field a value is read from (x.f as Field, or a load of &x.f).
+func fieldOfValue(v ssa.Value) *types.Var {
+	if fv := an.FieldOfLoad(v); fv != nil {
+		return fv
+	}
+	if f, ok := v.(*ssa.Field); ok {
+		return an.FieldVar(f.X.Type(), f.Field)
+	}
+	return nil
 }
